@@ -195,6 +195,21 @@ pub fn check_c16(job: &JobSpec, r: &JobResult, src: &mut SrcLines) -> Option<Vio
 
 /// C05: compare an observation with the reference observation of the same compilation request.
 /// `hard_read` / `hard_write`: an injected hard error fired on this job (relaxed rule).
+/// Debug/Trace records of the `log` facade, compared with a reference taken at the same level.
+pub fn check_debug_log(reference: &(u64, u32, String), got: &(u64, u32, String)) -> Option<Violation> {
+    if reference.0 == got.0 && reference.1 == got.1 {
+        return None;
+    }
+    let (a, b): (Vec<&str>, Vec<&str>) = (reference.2.lines().collect(), got.2.lines().collect());
+    let i = a.iter().zip(&b).position(|(x, y)| x != y);
+    let show = |v: &Vec<&str>, i: usize| v.get(i).map(|s| s.chars().take(200).collect::<String>()).unwrap_or_else(|| "<end>".into());
+    let detail = match i {
+        Some(i) => format!("Debug/Trace log record {} differs: {:?} <> {:?}", i, show(&a, i), show(&b, i)),
+        None => format!("Debug/Trace log text differs beyond the kept head or in length: {} records <> {} records", reference.1, got.1),
+    };
+    Some(Violation { class: "DIVERGE".into(), key: "DIVERGE|debug_log".into(), detail })
+}
+
 pub fn check_c05(reference: &Obs, r: &JobResult) -> Option<Violation> {
     if r.rlog.error_fired {
         return None; // nothing is demanded beyond termination
